@@ -488,3 +488,31 @@ func resequence(b []byte, base uint64) []byte {
 	}
 	return out
 }
+
+// emptyFragments returns, for a datagram with plaintext (epoch 0) handshake records, a datagram in which every
+// such record is replaced by a record (fresh sequence numbers from base) holding one zero-length fragment of
+// the same non-empty message at offset 0: what a conforming peer that emits empty fragments would send when it
+// repeats the message. nil if the datagram has no such record. pion itself never emits one.
+func emptyFragments(b []byte, base uint64) []byte {
+	recs, _ := world.ParseDatagram(b, 0)
+	var out []byte
+	for _, r := range recs {
+		if r.Unified || r.Epoch != 0 || len(r.Raw) < 25 || r.Raw[0] != 22 {
+			continue
+		}
+		h := r.Raw[13:25]
+		if h[1] == 0 && h[2] == 0 && h[3] == 0 {
+			continue // empty message
+		}
+		rec := append([]byte(nil), r.Raw[:13]...)
+		q := base
+		base++
+		for i := 0; i < 6; i++ {
+			rec[5+i] = byte(q >> (8 * uint(5-i)))
+		}
+		rec[11], rec[12] = 0, 12
+		rec = append(rec, h[0], h[1], h[2], h[3], h[4], h[5], 0, 0, 0, 0, 0, 0)
+		out = append(out, rec...)
+	}
+	return out
+}
